@@ -149,6 +149,20 @@ class CHECK(Check):
                 out.append((d, 'text', ' union '.join(['select 1'] * n)))
                 out.append((d, 'text', 'insert into t values ' + ', '.join(['(1, 2)'] * n)))
                 out.append((d, 'text', 'select a.' + '.'.join(['b'] * n)))
+            # length ladder for single lexemes (conversion limits, pattern costs): integers, decimals, names, literals, comments
+            for n in (10, 100, 1000, 4300, 4301, 5000, 20000):
+                out.append((d, 'text', 'select ' + '1' * n))
+                out.append((d, 'text', 'select ' + '1' * n + '.5'))
+                out.append((d, 'text', 'select 0.' + '1' * n))
+                out.append((d, 'text', 'select a from t limit ' + '1' * n))
+                out.append((d, 'text', 'select ' + 'a' * n))
+                out.append((d, 'text', 'select `' + 'a' * n + '`'))
+                out.append((d, 'text', "select '" + 'a' * n + "'"))
+                out.append((d, 'text', 'select "' + 'a' * n + '"'))
+                out.append((d, 'text', 'select 1 /* ' + 'a' * n + ' */'))
+                out.append((d, 'text', 'select -' + '1' * n))
+                out.append((d, 'text', 'select @' + 'a' * n))
+                out.append((d, 'text', 'insert into t values (' + '1' * n + ')'))
             if thorough:
                 f2 = self.fams2[d]
                 for s in f2.s0_edges():
@@ -205,7 +219,7 @@ class CHECK(Check):
         tr = sum(f.ex['edges'] for f in self.fams.values()) + sum(f.ex['edges'] for f in self.fams2.values())
         return {'exhaustive': True, 'states': st, 'transitions': tr, 'traces_validated_against_impl': agg['n'],
                 'rule': 'S0 edge+pair+triple (P,i,C,j,D) cover, S1 (insert/replace every terminal, delete, truncate at every abstract state), lexeme respellings, '
-                        'all token pairs, all strings of length<=3 over the character alphabet, one code point per Unicode general category (+ unnamed, surrogate, oddly classified ones) x 20 lexical contexts, size ladder, pumping family (19 openers x units of length<=2 over 16 characters x N in 16, 64, open and closed); distinct_nontrivial = '
+                        'all token pairs, all strings of length<=3 over the character alphabet, one code point per Unicode general category (+ unnamed, surrogate, oddly classified ones) x 20 lexical contexts, a length ladder (10 ... 20000 characters) for integers / decimals / names / literals / comments, size ladder, pumping family (19 openers x units of length<=2 over 16 characters x N in 16, 64, open and closed); distinct_nontrivial = '
                         'distinct (dialect, accepted text) or (dialect, error header, last message line)',
                 'char_alphabet': CHARS if self.tier == 'thorough' else CHARS[:30] + ['é']}
 
